@@ -121,6 +121,18 @@ func VerifHarness_Cancun(opb, fork uint64) {
 			if err == nil && !c.IsZero() {
 				verifAssert(used >= 3, "C15: MCOPY is never free")
 			}
+			if !c.IsZero() && !fits {
+				// a range that does not even fit in 64 bits cannot be paid for: it must fail, whatever the low bits are
+				verifAssert(err != nil, "C15: MCOPY with an operand beyond 2^64 fails (memory must cover both source and destination)")
+			}
+			if !c.IsZero() && fits && err == nil {
+				// paid-for success: memory now covers both ranges
+				hi := a.Uint64()
+				if b.Uint64() > hi {
+					hi = b.Uint64()
+				}
+				verifAssert(after != nil && uint64(len(after.mem)) >= hi+c.Uint64(), "C15: memory expands to cover both source and destination")
+			}
 			return
 		}
 		// the length is case-split so that each copy is a fixed number of byte moves
@@ -161,3 +173,4 @@ func VerifHarness_Cancun(opb, fork uint64) {
 		verifAssert(after.mem[j] == want, "C15: MCOPY copies like an overlap-safe memmove")
 	}
 }
+
